@@ -82,6 +82,19 @@ Theorem C11_load_norecover_refuted : load_shard (mmap_file witness_ngram) false 
 Proof. destruct norecover_panic as [H _]. split; [exact H|]. unfold load_shard_served. rewrite H. reflexivity. Qed.
 Print Assumptions C11_load_norecover_refuted.
 
+(** REFUTED (known finding c11:api-error:search:out-of-bounds, not repaired): isolation of the healthy shards.
+    A shard whose TOC places fileContents outside the file LOADS (offsets are not validated at load); its Search
+    returns IndexFile.Read's error, and streamSearch turns one shard's error into the failure of the whole search:
+    the healthy shard's results (non-empty when searched alone) are lost.  Both files are written by the model and
+    replayed on the implementation by the hunt (classes served-ok / api-error). *)
+Theorem C11_isolation_refuted :
+  exists h c, load_shard (mmap_file iso_healthy) false = Ok h /\ load_shard (mmap_file witness_oob) false = Ok c
+    /\ (exists r, sharded_search [h] = Ok (r, 0) /\ r <> [])
+    /\ shard_search c = Err E_OOB
+    /\ sharded_search [h; c] = Err E_OOB.
+Proof. exact isolation_refuted. Qed.
+Print Assumptions C11_isolation_refuted.
+
 (** Non-vacuity: the same witness files are harmless for the repaired reader; a healthy written shard loads. *)
 Example C11_nonvacuous_fixed : forall w, In w [witness_hang; witness_alloc; witness_panic] ->
   exists d, load_shard (mem_file w) false = Ok d /\ i_alloc d <= 4.
